@@ -1755,6 +1755,20 @@ class Arr2:
             return Arr2(rn, cn, lambda r, c: e(alg.add(r, rlo), alg.add(c, clo)), self.kind, None if m is None else (lambda r, c: m(alg.add(r, rlo), alg.add(c, clo))))
         raise Unsupported("2-D getitem")
 
+    def min(self, axis=None, **k):  # noqa: A003
+        from .npfuncs import np_min
+
+        if k:
+            raise Unsupported("ndarray.min keywords")
+        return np_min(self, axis)
+
+    def max(self, axis=None, **k):  # noqa: A003
+        from .npfuncs import np_max
+
+        if k:
+            raise Unsupported("ndarray.max keywords")
+        return np_max(self, axis)
+
     def masked_invalid(self):
         e = self._elem
         m = self._mask
